@@ -9,6 +9,9 @@ Decides (for the build that is analysed: feature `parallel` on, as in the defaul
       collection with the same comparator (same value, or two closures with identical MIR fingerprints);
  (R3) every *_parallel predicate filter treats the evaluated predicate exactly like its sequential
       sibling: same variants rejected with an error, same variants tested for non-zero, Boolean by value;
+ (R4) repeated execution: the functions that resolve an unqualified column name against several tables do not return
+      the first hit of a HashMap iteration (std's HashMap order is randomised per map: two tables with a column of the
+      same name would be resolved differently from one execution to the next).
 Does NOT decide that chunked results are merged correctly or float associativity inside SIMD kernels."""
 import re
 from ..engine.facts import callee_name, callee_generic_name
@@ -33,6 +36,7 @@ ALLOW = {'enumerate', 'into_par_iter', 'par_iter', 'par_iter_mut', 'cloned', 'co
          'map_with', 'map_init', 'par_chunks', 'par_chunks_mut', 'par_sort_by', 'par_sort', 'par_sort_by_key', 'zip', 'chunks', 'with_min_len',
          'with_max_len', 'flatten', 'count', 'unzip', 'partition', 'collect_into_vec', 'current_num_threads', 'rev', 'skip', 'take', 'chain',
          'flat_map_iter', 'flatten_iter', 'par_extend', 'len', 'is_empty'}
+ORDER_DEPENDENT = {'find', 'find_map', 'next', 'last', 'position', 'nth', 'reduce', 'fold', 'try_fold'}   # max/min(_by_key) on the unique start offsets are order independent
 SEQ_OF = {'par_sort_by': 'sort_by', 'par_sort': 'sort', 'par_sort_by_key': 'sort_by_key'}
 
 
@@ -186,6 +190,62 @@ def run(ctx):
         ctx.instance(f'R3/{f.nice}', {'rule': 'C04.R3', 'parallel': f.nice, 'compared_with': basename, 'differences': diff})
         if diff:
             ctx.finding(f'R3/{f.nice}', f'{f.nice} treats predicate values differently from {basename}: {diff}', f.loc)
+
+    # ------------------------------------------------------------------ R4 order-independent name resolution
+    ctx.rule('C04.R4', 'the unqualified-name resolvers (CombinedSchema::get_column_index, ExpressionMapper::resolve_column, '
+             'monomorphic::generic::filter::get_column_type, spatial::find_table_for_column / find_column_index) contain no loop over a '
+             'HashMap iterator that is left early with a result (first hit of a randomly ordered iteration)')
+    from ..engine.paths import loop_headers
+    from ..engine.linear import Encoder
+    RESOLVERS = (EX + 'schema::CombinedSchema::get_column_index', EX + 'select::join::expression_mapper::ExpressionMapper::resolve_column',
+                 EX + 'select::monomorphic::generic::filter::get_column_type',
+                 EX + 'select::executor::index_optimization::spatial::find_table_for_column',
+                 EX + 'select::executor::index_optimization::spatial::find_column_index')
+    for nm in RESOLVERS:
+        f = ctx.fn(nm)
+        g = cfg(f)
+        lh = loop_headers(f)
+        enc = Encoder(prog, f)
+        s_ = Sym(f)
+        early = []
+        for h, (sw, none_t) in lh.items():
+            t = f.blocks[h]['t']
+            a0 = t['args'][0]
+            l0 = a0.get('m', a0.get('c', [None]))[0]
+            ity = f.locals[l0] if l0 is not None else ''
+            if not re.search(r'hash::(map|set)::', ity):
+                continue
+            body = shared._body(enc, h)
+            for b in body:
+                tb = f.blocks[b]['t']
+                for x in g.succ[b]:
+                    if x in body or x == none_t or f.blocks[x]['t'].get('cleanup') or f.blocks[x]['t']['k'] in ('unreachable', 'resume'):
+                        continue
+                    if tb['k'] != 'switch':
+                        continue        # unwind edges of calls
+                    # an exit decided by a comparison of the map KEY itself (qualified lookup by table name) finds at most one
+                    # entry whatever the order of the iteration is
+                    cond = s_.op(tb['on'])
+                    early.append((h, b, cond))
+        real = [(h, b) for h, b, cond in early if not re.match(r'^(eq|ne|eq_ignore_ascii_case)\(.*next\(.*\)@Some\.0\.0(?![.\w])', cond)]
+        # the iterator-adaptor form of the same thing: find / find_map / next / last / position ... on an iterator over the map
+        heads = set(lh)
+        for i, t in f.calls():
+            gn = callee_generic_name(t) or ''
+            if short(gn.split('<')[0] if '<' not in gn.split('::')[-1] else gn) in ORDER_DEPENDENT or short(callee_name(t) or '') in ORDER_DEPENDENT:
+                op = short(callee_name(t) or '')
+                if op == 'next' and i in heads:
+                    continue
+                a0 = t['args'][0] if t['args'] else None
+                l0 = op_local(a0) if a0 else None
+                ity = f.locals[l0] if l0 is not None else ''
+                if re.search(r'hash::(map|set)::', ity) or re.search(r'hash::(map|set)::', gn):
+                    real.append((i, i))
+        ctx.instance(f'R4/{nm.rsplit("::", 1)[1]}', {'rule': 'C04.R4', 'fn': nm, 'hash_iteration_loops_left_early': len(real)})
+        if real:
+            ctx.finding(f'R4/{nm}', f'{nm} returns the first hit of a HashMap iteration for an unqualified name: with the name present in two '
+                        'tables the answer depends on the map\'s random iteration order, so the same query can return different results on '
+                        'repeated execution', f'{f.file}:{f.blocks[real[0][0]]["t"]["l"]}')
 
     ctx.assumptions.append('analysed with the default feature set (feature `parallel` enabled); the cfg(not(feature = "parallel")) arms are not compiled')
     ctx.assumptions.append('rayon collect() preserves the order of the source for all adaptors used (documented rayon behaviour)')
